@@ -321,7 +321,7 @@ func (c *vC12) checkCommitmentProofs(b *vBlock, otherRoot []byte, tamper func(*v
 	}
 	for i, r := range b.Refs {
 		h := honest[i]
-		if h == nil || !tamper(r) {
+		if h == nil || !tamper(r) || c.expired() {
 			continue
 		}
 		c.st.hist("tampered_commitment_proofs_by_class", b.blobClass(r))
